@@ -570,6 +570,92 @@ def op_sql_model_plain(d):
     return _sql_models("plain")
 
 
+# ---- exmod on a package whose module exports several symbols from one source file, among them names that differ only in case / only by an underscore ----
+# (orderings produced with a key that is not injective leave ties in set-iteration order)
+EXMOD_DB = '''"""db"""
+
+
+class Connection(object):
+    """
+    A connection
+
+    :cvar host: where to connect to
+    :cvar port: which port"""
+
+    host: str = "localhost"
+    port: int = 5432
+
+
+def connection(host="localhost", port=5432):
+    """
+    Build a connection
+
+    :param host: where to connect to
+    :type host: ```str```
+
+    :param port: which port
+    :type port: ```int```
+
+    :return: the pair
+    :rtype: ```tuple```
+    """
+    return host, port
+
+
+class CONNECTION(object):
+    """
+    Constants of a connection
+
+    :cvar retries: how often"""
+
+    retries: int = 3
+
+
+class Pool(object):
+    """
+    A pool
+
+    :cvar size: how many"""
+
+    size: int = 4
+
+
+__all__ = ["Connection", "connection", "CONNECTION", "Pool"]
+'''
+
+
+def op_exmod_case_colliding(d):
+    import sys
+
+    import cdd.compound.exmod_utils
+
+    pkg = "c10pkg_%d" % os.getpid()
+    base = os.path.join(d, pkg)
+    os.makedirs(base, exist_ok=True)
+    _w(base, "__init__.py", '"""pkg"""\n\nfrom {0}.db import CONNECTION, Connection, Pool, connection\n\n__all__ = ["Connection", "connection", "CONNECTION", "Pool"]\n'.format(pkg))
+    _w(base, "db.py", EXMOD_DB)
+    out = os.path.join(d, "exmod_out")
+    sys.path.insert(0, d)
+    try:
+        cdd.compound.exmod_utils.EXMOD_OUT_STREAM = io.StringIO()
+        for emit in ("function",):
+            try:
+                _main(["exmod", "-m", pkg, "--emit", emit, "-o", os.path.join(out, emit)])
+            except (SystemExit, Exception) as e:
+                _w(d, "exmod_%s_error.txt" % emit, type(e).__name__)
+    finally:
+        sys.path.remove(d)
+        for k in [k for k in sys.modules if k == pkg or k.startswith(pkg + ".")]:
+            del sys.modules[k]
+    res = []
+    for dirpath, dirnames, filenames in os.walk(out):
+        dirnames.sort()
+        for fn in sorted(filenames):
+            if fn.endswith(".py"):
+                res.append("## %s\n%s" % (os.path.relpath(os.path.join(dirpath, fn), out), _r(os.path.join(dirpath, fn)).replace(pkg, "PKG")))
+    return "\n".join(res) or "<nothing generated>"
+
+
 OPS = OrderedDict(
     (
         ("fn_subset", op_fn_subset),
@@ -599,6 +685,7 @@ OPS = OrderedDict(
         ("parse_json_schema_and_sqlalchemy", op_parse_json_schema_and_sqlalchemy),
         ("twin_a", op_twin_a),
         ("twin_b", op_twin_b),
+        ("exmod_case_colliding", op_exmod_case_colliding),
         ("sql_model_extras", op_sql_model_extras),
         ("sql_model_plain", op_sql_model_plain),
     )
